@@ -640,8 +640,9 @@ def run_relay_check(work, prop, tier, replay=None):
     if violations:
         for fr, path in violations:
             print("VIOLATION property=%s replay=%s" % (prop, path))
-            print("  history %s, record %d: %s %s -> %s; invariant %s" % (fr["hid"], fr["rec"].get("i", -1), fr["sig"]["step"],
-                                                                         fr["sig"]["kind"], fr["sig"]["ret"], fr["sig"]["inv"]))
+            sg = fr["sig"]
+            print("  history %s, record %d: %s %s -> %s; invariant %s%s" % (fr["hid"], fr["rec"].get("i", -1), sg.get("step", "-"), sg.get("kind", "-"),
+                                                                           sg.get("ret", "-"), sg.get("inv", "-"), ("; " + str(sg["what"])) if "what" in sg else ""))
         return 1
     if missing:
         raise Inconclusive("vacuity gate: the explored histories did not exercise the property enough (%s)" % ", ".join(missing))
